@@ -5,7 +5,7 @@ import Knut.Spec.PortfolioPeriodSpec
 /-! Driver ops for C20: the exact-arithmetic models of `knut portfolio returns` and `knut portfolio weights`.
 
 ```
-returns <flags> <journal>  → ok <day>:<num/den | undef>(,…)* | ok - | error <class> | panic <site>
+returns <flags> <journal>  → ok <day>:<num/den | undef>[!|~](,…)* | ok - | error <class> | panic <site>
 calm <flags> <journal>     → ok <day>:<0|1>(,…)* | ok -      per period end: do the hypotheses of the 0 %-clause hold (`calmPeriods`)?
 weights <flags> <journal>  → ok undefined | ok <flagsOut>;<day,day,…|->;<row>(|<row>)*    row := <depth>~<name hex>~<cell>(,<cell>)*   cell := - | num/den
 flags := key=value(;key=value)*   keys: val from to last iv acc com map sort uni
@@ -68,10 +68,12 @@ def handle (fields : List String) : Option String :=
     | some f, some ds =>
       match Performance.returns f.toFlags ds with
       | .ok lines =>
-        -- a `!` marks a period with a day whose denominator `V0 + inflow` vanishes (see `Performance.illConditioned`)
+        -- a `!` marks a period with a day whose denominator `V0 + inflow` vanishes (see `Performance.illConditioned`),
+        -- a `~` one with a day whose denominator is a rounding residue of much larger operands (`residueConditioned`)
         let cond := Performance.returnsCond f.toFlags ds
         "ok " ++ (if lines.isEmpty then "-" else String.intercalate ","
-          ((lines.zip (cond ++ List.replicate lines.length false)).map (fun (l, c) => s!"{l.1}:{showOpt l.2}{if c then "!" else ""}")))
+          ((lines.zip (cond ++ List.replicate lines.length 0)).map
+            (fun (l, c) => s!"{l.1}:{showOpt l.2}{if c = 1 then "!" else if c = 2 then "~" else ""}")))
       | .error w => "error " ++ w
       | .panic s => "panic " ++ hexStr s
     | none, _ => "bad-flags"
